@@ -781,6 +781,22 @@ S5_CONFIRMED_OVERRIDES = {
 
 
 def rule_S5(ctx):
+    _s5(ctx, False)
+
+
+def rule_S5z(ctx):
+    """termination (C13): a view whose declared size is zero or negative (a damaged header can say so) reads as empty - the request is
+    clipped whenever the view has an end at all, not only when that end is positive; otherwise a read-until-empty loop over such a view
+    (a reversed Roland sample whose end lies before its start) never sees an empty block"""
+    before = len(ctx.obs)
+    _s5(ctx, True)
+    keep = [o for o in ctx.obs[before:] if o.inst.startswith(("clip:", "clip-exists"))]
+    for o in keep:
+        o.rule = "S5z"
+    ctx.obs[before:] = keep
+
+
+def _s5(ctx, strict):
     read = _method(ctx, STREAM, "StreamWrapper", "read", "S5")
     _commit_after(ctx, _method(ctx, STREAM, "StreamWrapper", "seek", "S5"), "_seek", "seek moves the cursor only after the underlying seek was accepted", "seek-commit-order")
     _commit_after(ctx, read, "_read", "read advances the cursor only after the underlying read returned", "read-commit-order")
@@ -805,9 +821,17 @@ def rule_S5(ctx):
         if ok:
             c, env, st = reads[0]
             amount = evaluator(ctx, read, env).ev(c.args[0])
-        eof_pos = any(t and "self.end_of_file > 0" in c for c, t, _ in p.conds)
+        # does the view have an end on this path?  (`end_of_file is not None`; None = a view of unknown length, read through unclipped)
+        from .util import atomic_facts as _af5
+        facts5 = dict(_af5(p))
+        has_end = facts5.get("IsNot(self.end_of_file,None)")
+        if has_end is None and "Is(self.end_of_file,None)" in facts5:
+            has_end = not facts5["Is(self.end_of_file,None)"]
+        eof_pos = has_end is True or any(t and "self.end_of_file > 0" in c for c, t, _ in p.conds)
         conds = path_conds_struct(ctx, read, p)
         clamp = lambda t: A("max(" + ",".join(sorted(["0", t.key()])) + ")")  # noqa: E731
+        if ok and strict and has_end is None:
+            ok = False  # the view may have an end (zero, negative) and the request is not compared with it on this path
         if ok and eof_pos:
             if amount == clip or amount == clamp(clip):
                 n_clip += 1
